@@ -76,6 +76,33 @@ STRENGTHENED = {
     "C18_r3m1": "first missed by C18 (override values were always non-zero ints): None, 0, False, '', () as registered and override values",
     "C18_r3m2": "first missed by C18 (no registered kwargs held a mutable object shared with the caller): user registrations with a generator object for nine environments; make(id), make(id, time_limit=L2), make(id) again, each re-traced and compared with directly constructed environments",
     "C19_r3m2": "first missed by C19 (variant leaves were NumPy arrays, so a JAX-only code path was never entered, and cross-dtype values were small): the equality laws also run on JAX-array leaves; cross-dtype near-miss pairs with an exact Python-arithmetic oracle",
+    # ---- round 4 (DESIGN §10c)
+    "C02_r4m1": "not run against the earlier machinery: no library wrapper was ever used on the environment object under test; C02 now calls AutoResetWrapper / VmapAutoResetWrapper (with next_obs_in_extras) eagerly and under jit on the same object between the first and the repeated calls",
+    "C02_r4m2": "not run against the earlier machinery: environments were never passed as a static jit argument; C02 now routes sibling instances (other configurations, the same configuration with time_limit 2 / 3) and then the environment through one jax.jit(..., static_argnums=0) function and compares with the environment's own jit",
+    "C03_r4m1": "not run against the earlier machinery: no configuration plugged a user DoneFn / RewardFn in; custom-component configurations (Python bool / float returning) added for C01-C03",
+    "C03_r4m2": "first missed by C03 (no player ever filled a Snake board): Hamiltonian-cycle player + 2x3 / 3x4 / 4x4 boards",
+    "C04_r4m1": "not run against the earlier machinery: the shipped CVRP generator never produces a zero-demand customer; a padded harness generator (subclass of UniformGenerator, a third of the customers with demand 0) added",
+    "C04_r4m2": "caught by C02 (argument_mutated, and the new clause same_state_stepped_twice_in_one_trace): a step that updates its argument in place is a purity defect; under separately jitted calls - the only way C04 executes steps - it is unobservable, as its author notes",
+    "C05_r4m2": "first missed by C05 / C09 / C04 (during per-agent probes the other agents stood still, so nobody ate the food the deviating agent pushed into): partners now also play their last (LBF: load) and a random masked-in action",
+    "C06_r4m2": "not caught by the quick tier (needs a puzzle with >= 128 blocks, a 3-minute shard): caught by the thorough tier through the 8x16-block light configuration; first attempts with the full model workloads did not finish in 15 minutes",
+    "C07_r4m2": "not run against the earlier machinery (body longer than 127 needs a board of >= 128 cells played almost to the end): 8x17 board with a 9500-step Hamiltonian run on both tiers",
+    "C08_r4m1": "first missed by C08 / C09 (colour-reusing players never end with as many colours as nodes on sparse graphs): rainbow workload",
+    "C08_r4m2": "first missed by C08 (the CSV instances were written from a RandomGenerator instance, i.e. perfect cuts of the container): loose CSV instances (all boxes fit with room to spare), dense and sparse",
+    "C09_r4m2": "not run against the earlier machinery: weights were uniform floats or dyadic grid values, for which the two budget computations agree bit for bit; decimal 'catalogue' weights (multiples of 0.05) added, exact fits up to round-off are counted",
+    "C10_r4m1": "not run against the earlier machinery: food counts were 1-3; configurations with the largest food count the constructor accepts (8x8/6, 10x10/12) added with 3000 keys",
+    "C11_r4m1": "first missed by C11 and C03 (the last food must be eaten on exactly the step that reaches the limit): coincidence episodes - natural end step S found with a generous limit, then the same key and actions replayed with time_limit = S",
+    "C11_r4m2": "first missed by C11 (limits were always built-in ints): NumPy / JAX scalar limits for all 12 time-limited environments",
+    "C12_r4m2": "first missed by C12 (the Knapsack observer only compared copied fields; C04 caught it): the mask is now recomputed from the state's own float32 numbers",
+    "C13_r4m1": "first missed by C13 (no player ever filled a Snake board under the wrapper): wrapper runs driven by the models' completing workloads",
+    "C13_r4m2": "first missed by C13 (a delivery must fall on the very step that ends the episode, and two such events are needed to see equal keys): runs whose limit is the step of the first reward of that key, and a comparison of derived keys across runs started from different keys",
+    "C14_r4m1": "first missed by C14 (each wrapper object only ever saw one batch size): the wrapper objects are reset with a larger and then a smaller batch before the first step is traced",
+    "C14_r4m2": "first missed by C14 (legacy PRNGKey arrays only): typed keys (jax.random.key) through render of both batched wrappers",
+    "C16_r4m2": "first missed by C16 (num_values <= 8 and dtypes int8 / int32 only): num_values spanning the whole range of int8 / uint8 / int16",
+    "C17_r4m2": "first missed by C17 quick (the board 0..8 in reading order is one of 181 440 and lies 22 moves from the goal; the thorough tier's full sweep reaches it): ordered-looking non-goal boards are entered from each neighbour on every tier, bounded sweeps of 4x4 / 5x5 added",
+    "C18_r4m1": "first missed by C18 (all probe registrations used distinct class names): a second module with a class of the same name",
+    "C18_r4m2": "first missed by C18 (keyword values were scalars): NumPy / JAX arrays and tuples as registered and override values",
+    "C19_r4m1": "first run inconclusive (the changed helper broke an environment that uses it, a harness exception) - counted as a miss: elements in wider dtypes than the tree's leaves are now written directly",
+    "C19_r4m2": "first missed by C19 (no signed zeros): 0.0 vs -0.0 pairs on NumPy and JAX leaves",
     "C19_m2": "caught by the symmetric-comparison clause; the variant 'other dtype and a value the cast would destroy' was added to make the hit direct",
 }
 rows = []
